@@ -18,6 +18,7 @@ From Borno Require Import FlagRefine.
 From Borno Require Import FlagRefineCli.
 From Borno Require Import FlagSafe.
 From Borno Require Import FlagConverse.
+From Borno Require Import ScenarioExamples.
 
 (** once a program has failed nothing after it matters: no later statement runs, prints, prompts or reads *)
 Theorem C06_run_suffix_irrelevant :
@@ -390,3 +391,9 @@ Theorem C06_frun_total_init :
              frun_stmts libm clock sched f'' repl ss (fclean (init_state stdin)) = FOk tt fs'.
 Proof. exact (@frun_total_init). Qed.
 Print Assumptions C06_frun_total_init.
+
+(** a failing call inside an endless loop: output up to the fault, status 70, evaluated inside the kernel from source text *)
+Theorem C06_scenario_error_stops :
+  transcript src_error_stops = Some ([[98; 101; 102; 111; 114; 101]], 70).
+Proof. exact (@scenario_error_stops). Qed.
+Print Assumptions C06_scenario_error_stops.
